@@ -33,14 +33,14 @@ class FakeJson:
         if isinstance(v, (list, tuple)):
             return [FakeJson._norm(x) for x in v]
         if isinstance(v, numpy.ndarray):
-            raise TypeError('Object of type ndarray is not JSON serializable')
+            raise symx.simulated(TypeError('Object of type ndarray is not JSON serializable'))
         if isinstance(v, (numpy.integer,)):
-            raise TypeError('Object of type int64 is not JSON serializable')
+            raise symx.simulated(TypeError('Object of type int64 is not JSON serializable'))
         if isinstance(v, numpy.floating):
             return float(v)
         if v is None or isinstance(v, (str, bool, int, float)) or symx.is_sym(v):
             return v
-        raise TypeError(f'Object of type {type(v).__name__} is not JSON serializable')
+        raise symx.simulated(TypeError(f'Object of type {type(v).__name__} is not JSON serializable'))
 
     @classmethod
     def dumps(cls, obj, **kw):
@@ -51,16 +51,16 @@ class FakeJson:
     @classmethod
     def loads(cls, s, **kw):
         if s not in cls.docs:
-            raise ValueError('not a document')
+            raise symx.simulated(ValueError('not a document'))
         return copy.deepcopy(cls.docs[s]) if not _has_sym(cls.docs[s]) else _copy_json(cls.docs[s])
 
     @classmethod
     def load(cls, f, **kw):
-        raise OSError('stub')
+        raise symx.simulated(OSError('stub'))
 
     @classmethod
     def dump(cls, obj, f, **kw):
-        raise OSError('stub')
+        raise symx.simulated(OSError('stub'))
 
 
 def _has_sym(v):
